@@ -237,6 +237,7 @@ func c04(c *core.Check) {
 
 	// ---- R8 relative units
 	c04RelativeUnits(c)
+	c04FontSizeArg(c)
 
 	// ---- R9 computed values are per element: a computer function never converts the declared value in place
 	r9 := c.Rule("R9", "no computer function writes through the declared value it receives (it belongs to the stylesheet or to the initial values and is shared by every element the rule matches): otherwise the first element computed fixes the value of all the others", 30)
@@ -1389,5 +1390,53 @@ func c04LineHeight(c *core.Check) {
 		}
 		okU := un.Equal(core.Num(unitVal[tc.wantUnit]))
 		r.Cond(val.Equal(tc.want) && okU, key, p.Pos(fn.Pos()), "computed value "+val.String()+" "+tc.wantUnit, fmt.Sprintf("computed value %s (unit constant %s), CSS 2.1 gives %s in %s", val.String(), un.String(), tc.want.String(), tc.wantUnit))
+	}
+}
+
+// c04FontSizeArg: the reference font size handed to length_.
+func c04FontSizeArg(c *core.Check) {
+	p := c.Prog
+	r := c.Rule("R12", "every call of tree.length_ passes as reference font size either a negative constant (length_ then takes the element's own computed font size) or a value that is itself a font size (the parent's, for the font-size property): a non-negative constant makes every em, ex and ch length a multiple of that constant", 15)
+	fn := p.Fn("html/tree", "length_")
+	if fn == nil || len(fn.Params) != 4 {
+		r.Anchor("html/tree.length_")
+		return
+	}
+	sites, _ := p.CallSitesOf(fn)
+	seen := map[string]int{}
+	for _, cs := range sites {
+		caller := cs.Parent()
+		arg := cs.Common().Args[2]
+		key := core.FuncName(caller) + " | " + p.StmtTextAt(caller, cs.Pos())
+		if len(key) > 150 {
+			key = key[:150] + "…"
+		}
+		seen[key]++
+		if seen[key] > 1 {
+			key = fmt.Sprintf("%s #%d", key, seen[key])
+		}
+		if k, ok := arg.(*ssa.Const); ok {
+			f, isF := core.ConstFloat(k)
+			r.Cond(isF && f < 0, key, p.Pos(cs.Pos()), "negative constant: the element's own computed font size", fmt.Sprintf("the reference font size is the constant %v: em, ex and ch lengths are computed against it, not against a font size", k.Value))
+			continue
+		}
+		// a font size: derived from a GetFontSize() call or a fontSize field
+		isFS := core.DerivesFrom(arg, func(v ssa.Value) bool {
+			if call, ok := v.(*ssa.Call); ok {
+				name := ""
+				if call.Call.IsInvoke() {
+					name = call.Call.Method.Name()
+				} else if cal := call.Call.StaticCallee(); cal != nil {
+					name = cal.Name()
+				}
+				return name == "GetFontSize"
+			}
+			return core.IsFieldNamed(v, "fontSize")
+		})
+		if par, ok := arg.(*ssa.Parameter); ok && !isFS {
+			r.Skip(key, p.Pos(cs.Pos()), "the caller forwards its own parameter "+par.Name()+" (decided at the caller's call sites)")
+			continue
+		}
+		r.Cond(isFS, key, p.Pos(cs.Pos()), "derived from a computed font size", "the reference font size is neither a negative constant nor derived from a computed font size")
 	}
 }
